@@ -65,7 +65,10 @@ def fresh_variables(rng, n, multi_p=0.0):
             nm = letters.pop()
         else:
             while True:
-                nm = rng.choice(UPPER) + ''.join(rng.choice(UPPER + string.digits) for _ in range(rng.randrange(1, 3)))
+                if rng.random() < 0.5:
+                    nm = rng.choice('SSSABT' + UPPER) + str(rng.randrange(0, 13))     # like the names the library generates itself
+                else:
+                    nm = rng.choice(UPPER) + ''.join(rng.choice(UPPER + string.digits) for _ in range(rng.randrange(1, 3)))
                 if nm not in used:
                     break
         used.add(nm)
